@@ -71,6 +71,12 @@ def main():
             return 0
         out_dir = os.path.join(V, "seeded", f"{pid}-{slug}")
         os.makedirs(out_dir, exist_ok=True)
+        try:
+            old_note = json.load(open(os.path.join(out_dir, "meta.json"))).get("note")     # hand-written remarks survive a re-run
+            if old_note:
+                meta["note"] = old_note
+        except (OSError, ValueError):
+            pass
         for f in ("patch.diff", "demo.py", "notes.md"):
             if os.path.exists(os.path.join(src, f)) and os.path.realpath(src) != os.path.realpath(out_dir):
                 shutil.copy(os.path.join(src, f), os.path.join(out_dir, f))
